@@ -6,7 +6,7 @@ conditional / switch edge it takes, and the CFG elements (AST nodes) it evaluate
 assignments and ?: operators.
 """
 from .build import Broken
-from .facts import canon, conjuncts, const_value, strip, strip_all_casts, walk
+from .facts import callee_name, canon, conjuncts, const_value, strip, strip_all_casts, walk
 
 
 class Path:
@@ -94,9 +94,36 @@ class Path:
                     l = strip_all_casts(n["l"])
                     if l.get("k") == "ref" and l.get("decl") == s["decl"]:
                         last = n["r"]
+                elif n.get("k") == "call" and n.get("op") == "=" and "obj" in n and n.get("args"):
+                    l = strip_all_casts(n["obj"])
+                    if l.get("k") == "ref" and l.get("decl") == s["decl"]:
+                        last = n["args"][0]
             if last is not None:
                 return self.value_of(last, before, depth + 1)
         return s
+
+
+def is_null_value(e):
+    """The expression is a null pointer / empty smart pointer: nullptr, 0, or a default-constructed
+    object, possibly wrapped in conversions and copy/move constructions."""
+    e = strip_all_casts(e)
+    while e.get("k") == "construct" and len(e.get("args", [])) == 1:
+        e = strip_all_casts(e["args"][0])
+    return bool(e.get("null")) or const_value(e) == 0 or (e.get("k") == "construct" and not e.get("args")) or \
+        (e.get("k") == "initlist" and not e.get("inits"))
+
+
+def returned_value(p):
+    """The value returned at the end of path p, resolved through locals assigned on the path."""
+    r = p.returns()
+    if r is None or r.get("e") is None:
+        return None
+    e = strip_all_casts(r["e"])
+    while e.get("k") == "construct" and len(e.get("args", [])) == 1:
+        e = strip_all_casts(e["args"][0])
+    if e.get("k") == "call" and callee_name(e) in ("std::move", "std::forward") and e.get("args"):
+        e = strip_all_casts(e["args"][0])
+    return strip_all_casts(p.value_of(e))
 
 
 def enumerate_paths(fn, start=None, stop=None, limit=5000, follow_back=False):
